@@ -68,6 +68,8 @@ REMOVE = call(r"= std::fs::remove_file::", name="fs::remove_file")
 MOS = [
     MO("O12.4/prune_dependencies", "prune_backups: files are removed only for backups outside the keep set and not younger than min_age_days (DECIDES); the keep set is closed under parent_id before anything is removed",
        lambda F: prune_dependencies(F), functions=[("backup.rs", "prune_backups")], role="prune-ignores-parent-chain"),
+    MO("O12.5/incremental_snapshot", "create_incremental_backup: the snapshot named by the shipped MANIFEST is archived whenever it is not the one the parent chain carries (structure + DECIDES + FOLLOWS), and is recorded in the metadata",
+       lambda F: incremental_snapshot(F), functions=[("backup.rs", "create_incremental_backup"), ("backup.rs", "chain_snapshot_file")], role="incremental-omits-snapshot"),
     MO("O12.1/limits", "archive header parser: the name buffer is allocated only for 0 < name_len <= MAX_NAME, Ok only for data_len <= MAX_SIZE, file count Ok only for count <= MAX_FILES — proved for all values (DECIDES)",
        lambda F: limits_decided(F), functions=[("backup.rs", "read_archive_member_header"), ("backup.rs", "read_archive_file_count")]),
     MO("O12.3/chain_order", "restore_from_backup_with_options: for an incremental target the chain pushed along the parent links is reversed exactly once before any archive is verified or extracted, and it is not re-ordered by any other key",
@@ -152,6 +154,73 @@ def prune_dependencies(F):
     return out
 
 
+def incremental_snapshot(F):
+    """create_incremental_backup ships the current MANIFEST.  The MANIFEST names a snapshot; when that snapshot is not the one
+    the parent chain already carries, the chain is restorable only if this archive carries it (the segments the snapshot
+    covers may have been compacted away since the parent backup).
+    (a) structure: the function reads Manifest.latest_snapshot and archives a file named by it (ArchiveEntry::from_path whose
+        name is the payload of an Option<String>, not an item of the segment list);
+    (b) decision (DECIDES, from the chain comparison on): the snapshot entry is pushed iff the referenced snapshot differs from
+        the chain's (and exists; a missing file is an error, never a silent omission);
+    (c) the recorded metadata.snapshot_file is Some exactly on that path."""
+    from vlib import mirdec as MD
+    import vlib.mir as _M
+    from vlib.mirflow import origin as _o
+    C = "backup::BackupManager::create_incremental_backup"
+    fc = FnCheck(F, C)
+    if fc.fn is None:
+        return [fc.missing()]
+    fn = fc.fn
+    li = field_index("persistence.rs", "Manifest", "latest_snapshot")
+    if li is None:
+        return [Result("inconclusive", "Manifest.latest_snapshot not found")]
+    MANIFEST_SHIPPED = call(r"= ArchiveEntry::from_bytes::<&str>\(const \"MANIFEST\"", name="ArchiveEntry::from_bytes(\"MANIFEST\", ..)")
+    reads = False
+    for b in fn.blocks.values():
+        if b.cleanup:
+            continue
+        for st in b.stmts:
+            m = re.search(r"\((_\d+)\.%d: (std::option::)?Option<(std::string::)?String>\)" % li, st)
+            if m and "Manifest" in (fn.locals.get(m.group(1)) or ""):
+                reads = True
+    snap_blocks = set()
+    for b in fn.blocks.values():
+        if b.cleanup or b.kind != "call" or not re.search(r"= ArchiveEntry::from_path::<", b.term or ""):
+            continue
+        a = _M._split_top(b.args)
+        src = _o(fn, a[0]) if a else "?"
+        if re.search(r"as Some\)\.0: (std::string::)?String\)$", src) and "Iterator>::next" not in src:
+            snap_blocks.add(b.idx)
+    r = fc.reachable(MANIFEST_SHIPPED)
+    if r.verdict != "holds":
+        return [r]
+    smp = {"fn": fc.name, "kind": "PROVENANCE", "reads_latest_snapshot": reads, "snapshot_entries": ["bb%d" % i for i in sorted(snap_blocks)]}
+    if not (reads and snap_blocks):
+        return [Result("violated", "create_incremental_backup ships the current MANIFEST but never archives the snapshot it names (%s): after a snapshot + WAL compaction between the parent "
+                       "and this backup, the restored chain lacks that snapshot and the segments it covered" % ("Manifest.latest_snapshot is never read" if not reads else "no archive entry is named by it"),
+                       queries=r.queries, seconds=r.seconds, sample=smp)]
+    out = [Result("holds", "the snapshot named by the shipped MANIFEST is archived (%s)" % ", ".join(smp["snapshot_entries"]), queries=r.queries, seconds=r.seconds, sample=smp)]
+    SNAP_ENTRY = Ev(r"= ArchiveEntry::from_path::<", kind="call", also=lambda f, b, t: b.idx in snap_blocks, name="entries.push(snapshot named by the MANIFEST)")
+    CHAIN = call(r"= BackupManager::chain_snapshot_file\(", name="chain_snapshot_file(parent)")
+    atoms = [("differs", r"^call <Option<&str> as PartialEq>::ne$"), ("exists", r"^call Path::exists$")]
+    out += MD.decides(F, C, CHAIN, {"ship": SNAP_ENTRY}, atoms, {"ship": "(and differs exists)"}, declare=("differs", "exists"), containing=SNAP_ENTRY,
+                      what="the referenced snapshot is archived iff it differs from the snapshot the parent chain carries (and the file exists)")
+    # a snapshot that differs is never skipped silently: from the `differs` arm the Ok exit is reached only through the entry
+    out.append(fc.follows(Arm(r"^call <Option<&str> as PartialEq>::ne$", {"otherwise"}, name="referenced snapshot != chain snapshot"), SNAP_ENTRY, exit="ok"))
+    # (c) metadata.snapshot_file
+    sf = None
+    for b in fn.blocks.values():
+        for st in b.stmts:
+            m = re.search(r"BackupMetadata \{.*snapshot_file: (?:move |copy )?(_\d+)", st)
+            if m and not b.cleanup:
+                sf = _o(fn, m.group(1))
+    if sf is None or not re.search(r"Option::<(std::string::)?String>::Some\(", sf):
+        out.append(Result("violated", "the backup metadata never records the archived snapshot (snapshot_file = %s)" % (sf or "?")[:80], sample={"fn": fc.name, "kind": "PROVENANCE", "snapshot_file": (sf or "?")[:120]}))
+    else:
+        out.append(Result("holds", "metadata.snapshot_file = %s" % sf[:80], sample={"fn": fc.name, "kind": "PROVENANCE", "snapshot_file": sf[:120]}))
+    return out
+
+
 def clear_decision(F):
     """clear_data_directory: a file of the target directory is removed only if (allow_clear or the BACKUP_ALLOW_CLEAR confirmation)
     and not dry_run — the decision for all four settings (DECIDES); field numbers from the struct definition."""
@@ -211,6 +280,11 @@ def run(tier, seed, notes):
     for o in obls:
         if o.oid == "O12.4/prune_dependencies" and o.verdict == "violated" and "never adds the parents" in (o.detail or ""):
             r = RP.run_scenario(["prune-breaks-chain"], timeout=300, notes=notes)
+            if r.get("reproduced") is not None:
+                o.replay = r
+                o.detail += " | native replay: " + str(r.get("output"))[:220]
+        if o.oid == "O12.5/incremental_snapshot" and o.verdict == "violated" and "never archives the snapshot" in (o.detail or ""):
+            r = RP.run_scenario(["incremental-after-snapshot"], timeout=300, notes=notes)
             if r.get("reproduced") is not None:
                 o.replay = r
                 o.detail += " | native replay: " + str(r.get("output"))[:220]
